@@ -539,11 +539,19 @@ class UTPM(Ring, RawAlgorithmsMixIn):
         tmp = self.zeros_like() + rhs
         return tmp/self
 
+    def _check_inplace_constant(self, rhs):
+        """ x += c, x -= c, x /= c with a constant c: like NumPy, c has to broadcast into the shape of x
+        (an array with an extra leading axis of length P would otherwise be spread over the directions) """
+        if numpy.ndim(rhs) > 0 and numpy.broadcast_shapes(self.data.shape[2:], numpy.shape(rhs)) != self.data.shape[2:]:
+            raise ValueError('non-broadcastable output operand with shape %s doesn\'t match the broadcast shape %s'%(
+                str(self.data.shape[2:]), str(numpy.broadcast_shapes(self.data.shape[2:], numpy.shape(rhs)))))
+
     def __iadd__(self,rhs):
         if isinstance(rhs,numpy.ndarray) and rhs.dtype == object:
             raise NotImplementedError('should implement that')
 
         elif numpy.isscalar(rhs) or isinstance(rhs,numpy.ndarray):
+            self._check_inplace_constant(rhs)
             self.data[0,...] += rhs
         else:
             self_data, rhs_data = UTPM._broadcast_arrays(self.data, rhs.data)
@@ -556,6 +564,7 @@ class UTPM(Ring, RawAlgorithmsMixIn):
             raise NotImplementedError('should implement that')
 
         elif numpy.isscalar(rhs) or isinstance(rhs,numpy.ndarray):
+            self._check_inplace_constant(rhs)
             self.data[0,...] -= rhs
         else:
             self_data, rhs_data = UTPM._broadcast_arrays(self.data, rhs.data)
@@ -599,6 +608,7 @@ class UTPM(Ring, RawAlgorithmsMixIn):
             raise NotImplementedError('should implement that')
 
         elif numpy.isscalar(rhs) or isinstance(rhs,numpy.ndarray):
+            self._check_inplace_constant(rhs)
             self.data[...] /= rhs
         else:
             self_data, rhs_data = UTPM._broadcast_arrays(self.data, rhs.data)
